@@ -18,7 +18,11 @@ Record ndump := mkND {
 Inductive cev :=
 | CEv (ev : event) (sent : list msg)
 | CDump (d : list ndump)                  (* one entry per node *)
-| CRelay (n target : node) (path offered : list node) (next : option node).
+| CRelay (n target : node) (path offered : list node) (next : option node)
+| CRelayFind (n target : node) (path offered1 : list node) (find_ok : bool) (offered2 : list node) (next : option node).
+    (* the real GetNextHopRandomOrFind / onRelayConnChain at n: [offered1], [offered2] = the real
+       GetNextHop(target, path) before and after the fallback route discovery (whose messages are the
+       events in between), [find_ok] = the call returned without error *)
     (* relay decision at n for a request whose path (ending with n) is [path]:
        [offered] = what the real GetNextHop(target, path) returned, [next] = the real choice *)
 
@@ -70,6 +74,23 @@ Section Run.
          | None => match eff with [] => true | _ => false end
          end.
 
+  (** exists pick1 pick2 with relay_next_find = next *)
+  Definition relay_find_ok (n target : node) (offered1 : list node) (find_ok : bool) (offered2 : list node)
+             (next : option node) : bool :=
+    let eff1 := filter (fun v => nbr n v) offered1 in
+    let eff2 := filter (fun v => nbr n v) offered2 in
+    if nbr n target then match next with Some v => Nat.eqb v target | None => false end
+    else match eff1 with
+         | _ :: _ => match next with Some v => memn v eff1 | None => false end
+         | [] => if find_ok
+                 then match next, eff2 with
+                      | Some v, _ => memn v eff2
+                      | None, [] => true
+                      | None, _ => false
+                      end
+                 else match next with None => true | Some _ => false end
+         end.
+
   Definition cstep (st : state) (c : cev) : option state :=
     match c with
     | CEv ev sent =>
@@ -79,6 +100,8 @@ Section Run.
         end
     | CDump ds => if Nat.eqb (length ds) nn && dumps_ok st 0 ds then Some st else None
     | CRelay n target path offered next => if relay_ok n target path offered next then Some st else None
+    | CRelayFind n target path offered1 find_ok offered2 next =>
+        if relay_find_ok n target offered1 find_ok offered2 next then Some st else None
     end.
 
   Fixpoint crun (st : state) (evs : list cev) (i : nat) : option (nat * state) :=
